@@ -227,16 +227,29 @@ def rule_rw4(ctx):
     ctx.add("RW-4", "substitute_defined_variables", ok, ctx.site(b), "only existential quantifiers; the variable list is kept (the substituted variable becomes an orphan, removed separately)")
     # restrict_quantifier_domain: both call sites of replacement_helper under ovar general / ivar integer
     b = fx.fn("unstable::restrict_quantifier_domain")
-    cond_of = {id(n): c for n, c in flow.walk_cond(b["body"])}
-    calls = hq.calls(b["body"], "unstable::replacement_helper")
-    ok = len(calls) == 2
-    for c in calls:
-        cs = " ".join(k for k, pol in cond_of.get(id(c), ()) if pol)
-        ok = ok and "ovar.sort" in cs and "Sort::General" in cs and "ivar.sort" in cs and "Sort::Integer" in cs
+    # the facts that hold where replacement_helper is called (nested ifs, guard clauses with `continue`, De Morgan: the same facts)
+    from .. import leaves as _lvq
+    evq = sym.Eval(fx, inline_depth=0)
+    evq.effect_calls = {"unstable::replacement_helper"}
+    evq.function(b)
+    sites_ = []
+    for conds_, loops_, eff_ in evq.out:
+        if eff_[0] != "emit":
+            continue
+        ts_ = []
+        for c_ in conds_:
+            r_ = _lvq.cond_tests(c_[0][1] if (isinstance(c_[0], tuple) and c_[0][:1] == ("survived",)) else c_[0], c_[1])
+            ts_ += r_ if r_ else []
+        sites_.append(ts_)
+    ok = len(sites_) == 2
+    for ts_ in sites_:
+        sorts_by_var = {t_[1][1]: t_[2] for t_ in ts_ if t_[0] == "is" and isinstance(t_[1], tuple) and t_[1][:1] == ("fieldof",) and t_[1][2] == "sort"}
+        ok = ok and sorted(sorts_by_var.values()) == ["Sort::General", "Sort::Integer"] and \
+            any("Quantification" in repr(v_) and "BinaryFormula" not in repr(v_) for v_, s_ in sorts_by_var.items() if s_ == "Sort::General")
     ctx.add("RW-4", "restrict_quantifier_domain:sorts", ok, ctx.site(b), "a general outer variable is replaced only by an integer inner variable (both call sites guarded)")
-    uni = [c for c in calls if "rhs.free_variables" in " ".join(k for k, pol in cond_of.get(id(c), ()) if pol) or "contains(ovar)" in " ".join(k for k, pol in cond_of.get(id(c), ()))]
+    uni = [ts_ for ts_ in sites_ if any(t_[0] == "cond" and t_[2] is False and isinstance(t_[1], tuple) and t_[1][:2] == ("call", "IndexSet::contains")
+                                       and "Formula::free_variables" in repr(t_[1][2][0]) and "'rhs'" in repr(t_[1][2][0]) for t_ in ts_)]
     ctx.add("RW-4", "restrict_quantifier_domain:forall-consequent", len(uni) == 1, ctx.site(b), "in the forall/implication case the replaced variable must not occur in the consequent")
-
 
 def rule_rw5(ctx):
     fx = ctx.facts
